@@ -108,6 +108,45 @@ Lemma curl_sph_is_cart rho :
   local_R rho E_sph (ev3 rho (map3 (comp X_sph) (curl_cart D cart_vector))).
 Proof. intros Hr Hs. ev_cbn. trig_abs rho 1%nat H1. trig_abs rho 2%nat H2. apply triple_eq; fin2 H1 H2. Qed.
 
+(* ---- second order ---------------------------------------------------------------------------------------- *)
+Definition lap (d : nat -> tx -> tx) (t : tx) : tx :=
+  TAdd (TAdd (d 0%nat (d 0%nat t)) (d 1%nat (d 1%nat t))) (d 2%nat (d 2%nat t)).
+
+Lemma div_grad_cart_is_laplacian rho :
+  ev rho (div_cart D (list3 (grad_cart D gen_scalar))) = ev rho (lap D gen_scalar).
+Proof. unfold lap. ev_cbn. ring. Qed.
+Lemma curl_curl_cart rho :
+  ev3 rho (curl_cart D (list3 (curl_cart D (gen_vector 3)))) =
+  (let '(g1, g2, g3) := ev3 rho (grad_cart D (div_cart D (gen_vector 3))) in
+   (g1 - ev rho (lap D (TJ 1 0 0 0)), g2 - ev rho (lap D (TJ 2 0 0 0)), g3 - ev rho (lap D (TJ 3 0 0 0)))).
+Proof. unfold lap. ev_cbn. apply triple_eq; ring. Qed.
+
+Lemma curl_curl_cyl_is_cart rho : vq rho 0%nat <> 0 ->
+  ev3 rho (curl_cyl (Dvia X_cyl) (list3 (curl_cyl (Dvia X_cyl) (cart_vector_local Cyl)))) =
+  local_R rho E_cyl (ev3 rho (map3 (comp X_cyl) (curl_cart D (list3 (curl_cart D cart_vector))))).
+Proof. intros Hr. ev_cbn. trig_abs rho 1%nat H1. apply triple_eq; fin1 H1. Qed.
+Lemma div_grad_cyl_is_cart rho : vq rho 0%nat <> 0 ->
+  ev rho (div_cyl (Dvia X_cyl) (list3 (grad_cyl (Dvia X_cyl) cart_scalar_at))) =
+  ev rho (comp X_cyl (div_cart D (list3 (grad_cart D gen_scalar)))).
+Proof. intros Hr. ev_cbn. trig_abs rho 1%nat H1. fin1 H1. Qed.
+Lemma div_grad_sph_is_cart rho : vq rho 0%nat <> 0 -> sin (vq rho 2%nat) <> 0 ->
+  ev rho (div_sph (Dvia X_sph) (list3 (grad_sph (Dvia X_sph) cart_scalar_at))) =
+  ev rho (comp X_sph (div_cart D (list3 (grad_cart D gen_scalar)))).
+Proof. intros Hr Hs. ev_cbn. trig_abs rho 1%nat H1. trig_abs rho 2%nat H2. fin2 H1 H2. Qed.
+
+Lemma grad_div_cyl_is_cart rho : vq rho 0%nat <> 0 ->
+  ev3 rho (grad_cyl (Dvia X_cyl) (div_cyl (Dvia X_cyl) (cart_vector_local Cyl))) =
+  local_R rho E_cyl (ev3 rho (map3 (comp X_cyl) (grad_cart D (div_cart D cart_vector)))).
+Proof. intros Hr. ev_cbn. trig_abs rho 1%nat H1. apply triple_eq; fin1 H1. Qed.
+Lemma grad_div_sph_is_cart rho : vq rho 0%nat <> 0 -> sin (vq rho 2%nat) <> 0 ->
+  ev3 rho (grad_sph (Dvia X_sph) (div_sph (Dvia X_sph) (cart_vector_local Sph))) =
+  local_R rho E_sph (ev3 rho (map3 (comp X_sph) (grad_cart D (div_cart D cart_vector)))).
+Proof. intros Hr Hs. ev_cbn. trig_abs rho 1%nat H1. trig_abs rho 2%nat H2. apply triple_eq; fin2 H1 H2. Qed.
+Lemma curl_curl_sph_is_cart rho : vq rho 0%nat <> 0 -> sin (vq rho 2%nat) <> 0 ->
+  ev3 rho (curl_sph (Dvia X_sph) (list3 (curl_sph (Dvia X_sph) (cart_vector_local Sph)))) =
+  local_R rho E_sph (ev3 rho (map3 (comp X_sph) (curl_cart D (list3 (curl_cart D cart_vector))))).
+Proof. intros Hr Hs. ev_cbn. trig_abs rho 1%nat H1. trig_abs rho 2%nat H2. apply triple_eq; fin2 H1 H2. Qed.
+
 (* ---- the local bases: orthonormal, and tangent to the coordinate lines of the coordinate map ------------ *)
 Definition dotE rho (E : nat -> nat -> tx) (i j : nat) : R :=
   ev rho (E i 0%nat) * ev rho (E j 0%nat) + ev rho (E i 1%nat) * ev rho (E j 1%nat) +
